@@ -21,7 +21,7 @@ from . import structural as S
 ID = "C02"
 LEVEL = "exploration"
 BATCH = 1
-TIMEOUT = 600
+TIMEOUT = 3000
 REQUIRED_OBS = ["jac_entries_vs_stencil", "backend_dense", "backend_sparse", "modifier_cases", "jac_entries_vs_analytic"]
 RULE = ("C01 networks with more ODE modifiers (0-3 dependency species incl. repeats, numeric and parameter factors) and "
         "thermal rows; non-trivial = has a repeated reactant / 3-body term / catalyst / modifier with >=2 dependencies / thermal "
@@ -44,6 +44,11 @@ def gen_cases(tier: str):
             c["ode_modifier"][k]["factors"].append(("0.125", 0.125))
             c["ode_modifier"][k]["reactants"].append([])
         cases.append(c)
+    r = random.Random(rng.getrandbits(64))
+    cases.append(c01.bundled_case("minimal", r))
+    cases.append(c01.bundled_case("primordial", r))
+    if tier == "thorough":
+        cases.append(c01.bundled_case("deuterium", r, backends=["dense", "sparse"]))
     return cases
 
 
@@ -59,7 +64,7 @@ def tags_of(case):
 
 def run_case(case, ctx):
     obs, viol = Counter(), []
-    backends = ["dense", "sparse", "cusparse", "odeint"]
+    backends = case.get("backends") or ["dense", "sparse", "cusparse", "odeint"]
     want = {"inject", "frozen_jac", "pass"}
     if not case.get("cooling"):
         want.add("numjac_unfrozen")
@@ -157,6 +162,8 @@ def run_case(case, ctx):
                             continue
                         break
     tags = tags_of(case)
+    if case.get("bundled"):
+        tags.add("bundled_" + case["bundled"])
     for t in tags:
         obs["tag_" + t] += 1
     nontrivial = bool(tags & {"repeated_reactant", "three_body", "catalyst", "modifier_2dep", "modifier_3dep", "thermal"})
